@@ -22,7 +22,7 @@ import bn  # noqa: E402
 import gen  # noqa: E402
 import tlc  # noqa: E402
 
-VERIF = "/verif"
+VERIF = os.path.dirname(os.path.dirname(os.path.abspath(__file__)))   # a `vp run` snapshot uses its own work directory
 WORK = os.environ.get("VERIF_WORK") or os.path.join(VERIF, "work")
 EVID = os.path.join(WORK, "evidence") if os.environ.get("VERIF_WORK") else os.path.join(VERIF, "evidence")
 CONF_CLAUSES = ["Inv_PROJ", "Inv_MTS"]
